@@ -11,6 +11,10 @@ def build(u):
     u.preamble('bytes.rs')
     u.preamble('rbytes.rs')
     add_classread(u, ['C17', 'C01'])
+    add_skip_attributes(u, PROPS, canary=True)
+
+
+def add_skip_attributes(u, props, canary=False):
     u.raw('''
 // position after k attribute_info structures that start at p: each is u2 name index, u4 length, `length` bytes
 pub open spec fn attrs_end_k(data: Seq<u8>, p: int, k: nat) -> int
@@ -36,7 +40,7 @@ pub proof fn lemma_attrs_end_nonneg(data: Seq<u8>, p: int, k: nat)
     p0 = 'old(reader).pos()'
     d0 = 'old(reader).data()'
     cnt = f'val16({d0}.subrange({p0}, {p0} + 2))'
-    u.fn(R, 'skip_attributes', ret='res', canary=True,
+    u.fn(R, 'skip_attributes', ret='res', canary=canary, props=props,
          requires=[f'0 <= {p0}', f'{d0}.len() <= i64::MAX'],
          rewrites=[(r'for _ in 0\.\.attributes_count', 'for _i in iter: 0..attributes_count')],
          loops={0: dict(invariant=[
